@@ -11,6 +11,7 @@ LEAN_HELPERS = ['MV.Lemmas.VoiceLeading', 'MV.Lemmas.Parsimonious', 'MV.Lemmas.P
                 'MV.Model.Render', 'MV.Model.Pitch', 'MV.Model.Rel', 'MV.Model.Basic', 'MV.Model.Types',
                 'MV.Lemmas.Scale', 'MV.Lemmas.Ext', 'MV.Props.C01', 'MV.Props.C02']
 DRIVERS = ['C19']
+SRC_TIE = ['SrcPvl']   # py2lean source images of Chord / Score.get_parsimonious_voice_leading, find_optimal_octaves (with recursive_correct_octave), get_corrected_note, … proved equal to the model (MV/Props/TieSrcPvl.lean)
 GEN = ['Tables', 'Library']
 RULE = ('streams: pvl (pairs of random chords incl. modifiers x direction), spvl (progressions x from_first x directions), '
         'octaves / init / pitchsol / sgn / getscore (random progressions, 1-4 chords, 2-4 parts some absent, first notes of '
@@ -567,6 +568,8 @@ def correspondence(ctx):
     corr_optimiser(ctx)
     corr_end_to_end(ctx)
     corr_counterpoint(ctx)
+    import srctie
+    srctie.run(ctx, SRC_TIE, quick=150, thorough=4000)
 
 
 # ----------------------------------------------------------------------------- the property itself (oracles)
